@@ -41,7 +41,8 @@ pub struct C09 {
     /// the bar has no length (per_sec laws still apply; eta and duration are zero)
     pub no_len: bool,
     /// 0: plain; 1: a tick() (an update that carries no progress) in the middle of every gap;
-    /// 2: the starting position is set through ProgressBarIter::with_position instead of ProgressBar::with_position
+    /// 2: the starting position is set through ProgressBarIter::with_position instead of ProgressBar::with_position;
+    /// 3: after the first event the bar is handed to a (hidden) MultiProgress: being added is not a fresh start
     pub variant: u8,
 }
 
@@ -144,6 +145,7 @@ impl C09 {
         let base = match self.variant {
             1 => format!("{base}, a tick() in the middle of every gap"),
             2 => format!("{base}, position set through ProgressBarIter::with_position"),
+            3 => format!("{base}, added to a MultiProgress after the first update"),
             _ => base,
         };
         match self.base_pos {
@@ -168,7 +170,7 @@ impl Hist for C09 {
                 .map(|&g| Ev::Inc(g, (r as u128 * g as u128 / S as u128) as u64))
                 // a bar that started out at a position may also be abandoned: the average reported for the
                 // finished bar is bounded by the observed rate as well (the starting position is not progress)
-                .chain(if self.base_pos.is_some() && !prefix.is_empty() { Some(Ev::Abandon) } else { None })
+                .chain(if (self.base_pos.is_some() || self.variant == 3) && !prefix.is_empty() { Some(Ev::Abandon) } else { None })
                 .collect(),
             None => {
                 let mut v = Vec::new();
@@ -231,7 +233,11 @@ impl Hist for C09 {
                 pos = b;
             }
             let mut moved: Option<String> = None;
-            for ev in hist {
+            let mp = indicatif::MultiProgress::with_draw_target(ProgressDrawTarget::hidden());
+            for (n, ev) in hist.iter().enumerate() {
+                if self.variant == 3 && n == 1 {
+                    pb = mp.add(pb);
+                }
                 let before = if *ev == Ev::SetSame { Some((pb.per_sec().to_bits(), pb.eta())) } else { None };
                 apply(&pb, ev, &mut pos, self.variant == 1);
                 if let Some(b) = before {
@@ -438,6 +444,8 @@ fn configs(tier: Tier) -> Vec<(C09, usize)> {
     // updates that carry no progress between the ones that do
     v.push((C09 { base_pos: None, with_elapsed: None, steady: Some(1), no_len: false, variant: 1 }, ds));
     v.push((C09 { base_pos: None, with_elapsed: None, steady: Some(1_000_000), no_len: false, variant: 1 }, ds - 1));
+    // a bar that joins a MultiProgress while it is running
+    v.push((C09 { base_pos: None, with_elapsed: None, steady: Some(1_000), no_len: false, variant: 3 }, ds - 1));
     // the starting position of a wrapped iterator
     v.push((C09 { base_pos: Some(500_000_000), with_elapsed: None, steady: Some(1_000), no_len: false, variant: 2 }, ds - 1));
     v.push((C09 { base_pos: Some(1 << 40), with_elapsed: None, steady: Some(1), no_len: false, variant: 2 }, ds - 1));
